@@ -327,8 +327,10 @@ def run(ctx):
     ctx.rule("R7b", "parse-layer inventory of panic-capable constructs with local discharge patterns")
     ctx.rule("R7-ovf", "overflow-checked arithmetic whose operand is a wire-controlled integer (C17's taint: parsed integer, decoder value, wire-filled field) is reviewed for a bound")
     ctx.rule("R6d", "must-validate-before-trust for every trusting streaming decoder outside hexane")
+    ctx.rule("R8-actoridx", "Columns::load: every column of actor indexes that goes into the op set is the receiver of an Iterator::all bound check (index < actors.len())")
     f = ctx.facts()
     check_r7a(ctx, f, "C15")
+    check_actor_columns(ctx, f)
     # ---------------- R7b
     ptable = ctx.table("panic_sites.tsv")
     G = guarantees(ctx, f)
@@ -407,3 +409,30 @@ def run(ctx):
             ctx.ob("R6d", k, True, t["sp"], "reviewed: " + dtable["R6d|" + k], via="table:" + dtable["R6d|" + k])
         else:
             ctx.ob("R6d", k, ok, t["sp"], why)
+
+
+
+def check_actor_columns(ctx, f):
+    """actor indexes read from a document chunk index the actor table (ActorMapper, clocks, ..): each loaded column of them is range-checked"""
+    CL = "automerge::op_set2::columns::Columns::load"
+    b = ctx.body(CL)
+    ctx.analysed_fns.add(CL)
+    is_col = lambda l: "ActorIdx" in b.local_ty(l) and b.local_ty(l).startswith("hexane::column::Column<")
+    cols = {}
+    for bi, blk in enumerate(b.blocks):
+        for st in blk["st"]:
+            rv = st["rv"]
+            if rv["k"] == "Agg" and (rv.get("adt") or "").endswith("op_set2::columns::Columns"):
+                for fld, o in zip(rv.get("fields", []), rv["o"]):
+                    ls = {l for l in b.provenance(o, through_calls=False).locals if is_col(l)}
+                    if ls:
+                        cols[fld] = ls
+    ctx.floor("actor-index columns stored into Columns by Columns::load", len(cols), 4)
+    checked = set()
+    for bi, t in b.calls():
+        if (norm_fn(t.get("fn")) or "").endswith("Iterator::all"):
+            checked |= {l for l in b.provenance(t["args"][0], through_calls=True).locals if is_col(l)}
+    for fld, ls in sorted(cols.items()):
+        ok = bool(ls & checked)
+        ctx.ob("R8-actoridx", "Columns::load|%s range-checked" % fld, ok, b.rec["sp"], "receiver of an all(index < actors.len()) check" if ok else
+               "the actor indexes of column %s are never compared with the size of the actor table: a document naming an actor outside its table is accepted and indexes out of bounds later (ActorMapper / clocks)" % fld)
